@@ -191,6 +191,10 @@ func (fv *FV) loc(e ast.Expr, cx *Cx) *Loc {
 			if b, ok := fv.lets[x.Name]; ok {
 				return &Loc{kind: LVal, val: b.T, ty: b.Ty, sort: b.S}
 			}
+			if es, ok := u.ExtraCells[x.Name]; ok {
+				fv.cellSort[x.Name] = es
+				return &Loc{kind: LVar, cell: x.Name, sort: es}
+			}
 		}
 		obj := fv.lookupIdent(x, cx)
 		v, ok := obj.(*types.Var)
@@ -262,7 +266,7 @@ func (fv *FV) loc(e ast.Expr, cx *Cx) *Loc {
 			es := u.sortOf(t.Elem())
 			cell := "E!" + string(es)
 			fv.cellType[cell] = nil
-			return &Loc{kind: LElem, cell: cell, sort: es, addr: sx("sl_base", s.T), idx: sx("+", sx("sl_off", s.T), i.T), ty: t.Elem()}
+			return &Loc{kind: LElem, cell: cell, sort: es, addr: sx("sl_base", s.T), idx: sx("sidx", sx("sl_off", s.T), i.T), ty: t.Elem()}
 		case *types.Map:
 			m := fv.expr(x.X, cx)
 			k := fv.expr(x.Index, cx)
@@ -824,8 +828,11 @@ func (fv *FV) binder(e ast.Expr) (string, types.Type) {
 	case *ast.BinaryExpr:
 		id, ok1 := b.X.(*ast.Ident)
 		tn, ok2 := b.Y.(*ast.Ident)
-		if ok1 && ok2 && b.Op == token.MUL {
+		if ok1 && ok2 && (b.Op == token.MUL || b.Op == token.ADD) {
 			if obj, ok := fv.u.Pkg.Types.Scope().Lookup(tn.Name).(*types.TypeName); ok {
+				if b.Op == token.ADD {
+					return id.Name, obj.Type() // `k + memoKey`: k of (value) type memoKey
+				}
 				return id.Name, types.NewPointer(obj.Type())
 			}
 			panic(refuse("unknown type %s in binder", tn.Name))
@@ -1146,7 +1153,7 @@ func (fv *FV) rangeBind(rs *ast.RangeStmt, st *State) {
 		bind(rs.Key, TV{T: i, Ty: tInt, S: SInt})
 		if rs.Value != nil {
 			e := fv.get(st, "E!"+string(es), arr(SInt, arr(SInt, es)))
-			v := sel(sel(e, sx("sl_base", x)), sx("+", sx("sl_off", x), i))
+			v := sel(sel(e, sx("sl_base", x)), sx("sidx", sx("sl_off", x), i))
 			c := fv.decl(fv.fresh("elem"), es)
 			fv.emit(fmt.Sprintf("(assert (= %s %s))", c, v))
 			fv.assume(st, fv.typeFacts(sl.Elem(), c, st))
